@@ -15,6 +15,7 @@ from __future__ import annotations
 
 import functools
 import inspect
+import re
 import sys
 import typing
 
@@ -51,7 +52,9 @@ def forwardref(
 
     module = _resolve_module_name(ref, module)
     if module is not None:
-        name = name.replace(f"{module}.", "")
+        # Drop the module where it leads a dotted name, and only there:
+        #   `app.webapp.Model` within `app` is `webapp.Model`, not `webModel`.
+        name = re.sub(rf"(?<![\w.]){re.escape(module)}\.", "", name)
 
     return ForwardRef(
         name,
